@@ -152,7 +152,9 @@ package parser
 
 // Relaxed mode, YAML inside a YAML scalar: the line after the scalar's first line is read from the file's line table.
 //@ func Parser.parseNode [C02]
-//@   at call countLeadingSpace assert node.Line < len(contentLines)
+//@   requires node != nil && node.Line >= 0
+//@   assumed requires
+//@   safe index
 
 // Every field node the parser builds carries at least one position (C06 / C02: reporters index and take maxima
 // over them). yaml.v3 nodes are 1-indexed: that fact about the dependency is assumed at the call sites.
